@@ -126,6 +126,12 @@ impl World {
         let k = self.inter;
         self.inter += 1;
         self.op_inter += 1;
+        // an operation needs at most a few hundred bus/line interactions; one that keeps exchanging with
+        // the chip (a loop that never awaits the interrupt line) would otherwise never come back
+        if self.op_inter > 50_000 {
+            self.op_inter = 0;
+            panic!("interaction budget exceeded: {} keeps exchanging with the chip and does not return", self.cur_op);
+        }
         let key = (kind.to_string(), first);
         let nth = *self.occ.get(&key).unwrap_or(&0);
         self.occ.insert(key, nth + 1);
